@@ -308,6 +308,10 @@ def materialise(*links, via='datastream'):
     elif via == 'results':
         results, dp, _ = Flow(*links).results()
         return State(copy.deepcopy(dp.descriptor), results, None)
+    elif via == 'results_raw':
+        # through the driver (exceptions wrapped into ProcessorError) but without the final validation pass
+        results, dp, _ = Flow(*links).results(on_error=None)
+        return State(copy.deepcopy(dp.descriptor), results, None)
     raise ValueError(via)
 
 
